@@ -87,6 +87,67 @@ let dispatch op =
   | "burnorient" -> let g = rd_graph () in let q = rd_nat () in let d = rd_zlist () in
       let b = burn_list g q d in let o = burn_orient g b in
       out_bool (cert_ok g q d o (burn_pos g b)); out_int (List.length o); List.iter (fun (a, b) -> out_nat a; out_nat b) o
+  | "ghist" -> (* n k ops ; 0 a b k | 1 cnt (a b k)* | 2 v *)
+      let n = rd_int () in let st = ref (ginit (nat_of_int n)) in let k = rd_int () in
+      let dump (s : gstate) = List.iter (fun r -> List.iter out_z r) s.adj; out ";"; List.iter out_z s.valc; out ";"; out_z s.tot; out_z (g_genus s) in
+      for _ = 1 to k do
+        (match rd_int () with
+         | 0 -> let a = rd_nat () in let b = rd_nat () in let kk = rd_z () in
+             (match add_edge !st a b kk with Ok s -> st := s; out "ok" | Err -> out "err")
+         | 1 -> let c = rd_int () in let es = rd_n c (fun () -> let a = rd_nat () in let b = rd_nat () in let kk = rd_z () in ((a, b), kk)) in
+             let (s, okf) = add_edges !st es in st := s; out (if okf then "ok" else "err")
+         | 2 -> let v = rd_nat () in
+             (match remove_vertex !st v with Ok s -> out "ok"; out "["; dump s; out "]" | Err -> out "err")
+         | _ -> failwith "bad gop");
+        dump !st; out "|"
+      done
+  | "dhist" -> (* g q(-1 = divisor level) D k ops *)
+      let g = rd_graph () in let q = rd_int () in let st = ref (dinit g (rd_zlist ())) in let k = rd_int () in
+      for _ = 1 to k do
+        let mv = (match rd_int () with
+         | 0 -> MLend (rd_nat ()) | 1 -> MBorrow (rd_nat ()) | 2 -> MFire (rd_natlist ())
+         | 3 -> let a = rd_nat () in let b = rd_nat () in let amt = rd_z () in MTransfer (a, b, amt)
+         | _ -> failwith "bad move") in
+        (match (if q < 0 then dstep g !st mv else cstep g (nat_of_int q) !st mv) with Ok s -> st := s; out "ok" | Err -> out "err");
+        List.iter out_z (!st).degs; out ";"; out_z (!st).total; out_bool (is_effective_b g (!st).degs); out "|"
+      done
+  | "darith" -> (* n1 D n2 E : add sub *)
+      let n1 = rd_nat () in let d = rd_zlist () in let n2 = rd_nat () in let e = rd_zlist () in
+      (match d_add n1 n2 d e with Ok r -> out "ok"; List.iter out_z r | Err -> out "err"); out "|";
+      (match d_sub n1 n2 d e with Ok r -> out "ok"; List.iter out_z r | Err -> out "err")
+  | "dunary" -> (* n D k : neg, scale k *)
+      let n = rd_nat () in let d = rd_zlist () in let k = rd_z () in
+      List.iter out_z (dneg n d); out "|"; List.iter out_z (dscale n k d)
+  | "deq" -> let g1 = rd_graph () in let d = rd_zlist () in let g2 = rd_graph () in let e = rd_zlist () in out_bool (d_eqb g1 d g2 e)
+  | "chip" -> let n = rd_nat () in let v = rd_nat () in (match chip_at n v with Ok r -> out "ok"; List.iter out_z r | Err -> out "err")
+  | "shist" -> let n = rd_int () in let st = ref (List.init n (fun _ -> Z0)) in let k = rd_int () in
+      for _ = 1 to k do
+        let o = (match rd_int () with 0 -> let v = rd_nat () in SSet (v, rd_z ()) | 1 -> let v = rd_nat () in SUpdate (v, rd_z ()) | _ -> failwith "bad sop") in
+        (match sstep (nat_of_int n) !st o with Ok s -> st := s; out "ok" | Err -> out "err");
+        List.iter out_z !st; out "|"
+      done
+  | "lapm" -> let g = rd_graph () in List.iter (fun r -> List.iter out_z r) (lap_matrix g)
+  | "lapred" -> let g = rd_graph () in let q = rd_nat () in List.iter (fun r -> List.iter out_z r) (lap_reduced g q)
+  | "lapapply" -> let g = rd_graph () in let d = rd_zlist () in let s = rd_zlist () in List.iter out_z (lap_apply g d s)
+  | "scripted" -> let g = rd_graph () in let d = rd_zlist () in let s = rd_zlist () in let o = rd_natlist () in List.iter out_z (scripted_moves g d s o)
+  | "ohist" -> (* g c (a b)* k ops ; 0 set a b st | 1 check_fullness | 2 divisor | 3 reverse | 4 get a b *)
+      let g = rd_graph () in let c = rd_int () in let init = rd_n c (fun () -> let a = rd_nat () in let b = rd_nat () in (a, b)) in
+      let dump (s : ostate) = List.iter (fun r -> List.iter out_z r) s.dir; out ";"; List.iter out_z s.inc; out ";"; List.iter out_z s.outc in
+      (match oconstruct g init with
+       | Err -> out "err"
+       | Ok s0 -> out "ok"; let st = ref s0 in dump !st; out "|";
+          let k = rd_int () in
+          for _ = 1 to k do
+            (match rd_int () with
+             | 0 -> let a = rd_nat () in let b = rd_nat () in let x = rd_z () in
+                 (match set_orientation g !st a b x with Ok s -> st := s; out "ok" | Err -> out "err")
+             | 1 -> let (s, f) = check_fullness g !st in st := s; out_bool f
+             | 2 -> let (s, r) = o_divisor g !st in st := s; (match r with Ok d -> out "ok"; List.iter out_z d | Err -> out "err")
+             | 3 -> let (s, r) = o_reverse g !st in st := s; (match r with Ok o -> out "ok"; out "["; dump o; out "]" | Err -> out "err")
+             | 4 -> let a = rd_nat () in let b = rd_nat () in (match o_get g !st a b with Ok z -> out "ok"; out_z z | Err -> out "err")
+             | _ -> failwith "bad oop");
+            out ";"; dump !st; out "|"
+          done)
   | _ -> failwith ("unknown op " ^ op)
 
 let () =
